@@ -149,6 +149,34 @@ fn ordering(o: Option<std::cmp::Ordering>) -> &'static str {
 }
 
 fn dd(op: &str, form: &str, x: Decimal, y: Decimal, n: u8) -> Result<String, String> {
+    let res = dd_forms(op, form, x, y, n)?;
+    // identical operands: additionally the by-reference form with BOTH references to the SAME object (`&x op &x`),
+    // reported as form `xx` - an aliasing short-cut must not change the result
+    if form == "*" && x.coefficient() == y.coefficient() && x.n_frac_digits() == y.n_frac_digits() {
+        let alias: Option<String> = match op {
+            "add" => Some(guard(th!(dec(&x + &x)))),
+            "sub" => Some(guard(th!(dec(&x - &x)))),
+            "mul" => Some(guard(th!(dec(&x * &x)))),
+            "div" => Some(guard(th!(dec(&x / &x)))),
+            "rem" => Some(guard(th!(dec(&x % &x)))),
+            "cadd" => Some(guard(th!(opt(CheckedAdd::checked_add(&x, &x))))),
+            "csub" => Some(guard(th!(opt(CheckedSub::checked_sub(&x, &x))))),
+            "cmul" => Some(guard(th!(opt(CheckedMul::checked_mul(&x, &x))))),
+            "cdiv" => Some(guard(th!(opt(CheckedDiv::checked_div(&x, &x))))),
+            "crem" => Some(guard(th!(opt(CheckedRem::checked_rem(&x, &x))))),
+            "divr" => Some(guard(th!(dec(DivRounded::div_rounded(&x, &x, n))))),
+            "mulr" => Some(guard(th!(dec(MulRounded::mul_rounded(&x, &x, n))))),
+            "quant" => Some(guard(th!(dec(Quantize::quantize(&x, &x))))),
+            _ => None,
+        };
+        if let Some(a) = alias {
+            return Ok(format!("{}|xx={}", res, a));
+        }
+    }
+    Ok(res)
+}
+
+fn dd_forms(op: &str, form: &str, x: Decimal, y: Decimal, n: u8) -> Result<String, String> {
     match op {
         "add" => run_forms(form, &op6!(x, y, +, +=)),
         "sub" => run_forms(form, &op6!(x, y, -, -=)),
